@@ -224,6 +224,14 @@ Lemma S_parse_comment : SimP node_sim parse_comment parse_comment.
 Proof. unfold parse_comment. stac. Qed.
 #[export] Hint Resolve S_parse_comment : sdb.
 
+Lemma S_annotation_body : SimP (@eq unit) annotation_body annotation_body.
+Proof.
+  unfold annotation_body.
+  eapply (@S_bind _ _ (pair_rel (Forall2 tok_sim) (opt_rel tok_sim))); [apply S_take_until|].
+  intros [b t] [b' t'] [H1 H2]. cbn [fst snd] in *. destruct H2; [apply S_ret; reflexivity|apply S_fail].
+Qed.
+#[export] Hint Resolve S_annotation_body : sdb.
+
 Lemma S_parse_annotations : SimP node_sim parse_annotations parse_annotations.
 Proof. unfold parse_annotations. stac. Qed.
 #[export] Hint Resolve S_parse_annotations : sdb.
